@@ -4,6 +4,7 @@ import (
 	"bytes"
 	"encoding/binary"
 	"fmt"
+	"go.minekube.com/gate/pkg/edition/java/proxy/message"
 	"time"
 
 	"go.minekube.com/gate/pkg/edition/java/config"
@@ -118,6 +119,12 @@ func runC15(r *Run) {
 		}
 		backendDoneSending = true
 	}
+	// a slow client: few bytes in flight, so that the proxy's flushes block
+	w.clientWindow = []int{0, 0, 96, 700}[r.F.Pick(4)]
+	// a second writer on the player connection while the relay runs (plugin API)
+	nAPI := r.W.Pick(12)
+	apiDone := nAPI == 0
+	apiCh, _ := message.ChannelIdentifierFrom("verif:api")
 	var joined bool
 	clientDoneSending := false
 	cl := w.addClient("Relay", prot, func(c *clientModel) {
@@ -139,6 +146,22 @@ func runC15(r *Run) {
 		c.StartReader()
 		if !c.WaitConnected(1) {
 			return
+		}
+		if pl := w.p.PlayerByName("Relay"); pl != nil && nAPI > 0 {
+			simrt.Go(func() {
+				defer func() { apiDone = true }()
+				for i := 0; i < nAPI; i++ {
+					r.Op("api-write")
+					if pl.SendPluginMessage(apiCh, []byte{byte(i), 1, 2, 3}) != nil {
+						return
+					}
+					for k, m := 0, r.W.Pick(4); k < m; k++ {
+						simrt.Yield("c15.api")
+					}
+				}
+			})
+		} else {
+			apiDone = true
 		}
 		for i, p := range c2s {
 			if fault == 3 && i == cutAfter {
@@ -162,7 +185,7 @@ func runC15(r *Run) {
 		if fault >= 3 {
 			return clientDoneSending && backendDoneSending
 		}
-		return clientDoneSending && backendDoneSending && len(gotAtBackend) >= len(c2s) && len(gotAtClient) >= len(s2c)
+		return apiDone && clientDoneSending && backendDoneSending && len(gotAtBackend) >= len(c2s) && len(gotAtClient) >= len(s2c)
 	}
 	why := w.s.RunUntil(20*time.Second, done)
 	if why == "steps" {
